@@ -446,6 +446,14 @@ theorem model_release_marks_then_calls (s : State) (x w : Nat) (l : List Nat)
     ∃ o, (release s x).1.objs w = some o ∧ o.kind = .gcp none none ∧ o.released = true :=
   release_marks h
 
+/-- **The collector sees exactly the references the model gives a wrapper**: the members visited by
+`cdatagcp_traverse` in the source are the model's `edges` of a wrapper (destructor and origobj), so the
+sets the model lets the collector finalise (`collectOk`: closed under the model's edges) are the ones the
+real collector can recognise as garbage. -/
+theorem traverse_visits_model_edges (d o : Nat) (e : Nat) :
+    traversed d o = edges (mkObj (.gcp (some d) (some o)) e) := by
+  simp [traversed, CffiVerif.Generated.OwnershipSteps.gcp_traverse, edges, mkObj]
+
 open CffiVerif.Generated.OwnershipSteps in
 /-- `ffi.gc(x, None)`, handle deallocation, `new_handle`, `from_handle`: the statements the model
 relies on, in the order of the source (type check before `Py_CLEAR`; the handle's address is the
